@@ -30,6 +30,9 @@ ASSUMPTIONS = ["P avoids the time and random operators and sleep, as the stateme
                "the baton scheduler runs one thread at a time: data races on unsynchronised process-wide state (first-use type registration) are not observable here, "
                "only logical interference is"]
 
+# two executions of one plan that differ are a violation of this very property (not a fault of the harness): see simlib/core.py
+NONDET_KEY = "not-deterministic:re-execution"
+
 P_OPTS = dict(max_depth=3, max_stmts=4, budget=25, scoping=0.5, early=0.2, loops=0.3, case_mix=0.3, spawn=0.0, with_ns=0.5, fn=0.4)
 
 # probes: (tag, SQF expression) - read-only observations of candidates for process-wide state
@@ -44,7 +47,10 @@ PROBES = [
     ("vars", 'count (allVariables uiNamespace)'),
     ("cmp", '[0 isEqualTo -0, "a" == "A", [1, [2]] isEqualTo [1, [2]], createHashMapFromArray [[1, 2]] get 1]'),
     ("sup", 'count (supportInfo "b:select*")'),
+    ("veh", 'call { private _v = "Car" createVehicle [1, 2, 3]; private _g = createGroup west; [isNil "_v", typeOf _v, str _v, str _g, getPos _v, side _g] }'),
 ]
+# what P needs for its own world probes (another class precedes CfgVehicles, so that handles cached by another instance do not fit)
+P_CONFIG = 'configparse__ "class CfgPatches { class PP { units[] = {}; }; }; class CfgVehicles { class Car { scope = 2; }; };";' 
 # disturbers: statements that write candidates for process-wide state
 DISTURB = [
     ("toFixed", "toFixed 2;"),
@@ -56,6 +62,8 @@ DISTURB = [
     ("types", 'private _h = createHashMap; private _t = parseText "x"; private _s = sideLogic; private _c = configFile; private _l = scriptNull;'),
     ("uivars", '{ uiNamespace setVariable [_x, 1] } forEach ["q_a", "q_b", "q_c"];'),
     ("with", 'with uiNamespace do { gv1 = 3; qg3 = 9; };'),
+    ("vehicles", 'configparse__ "class CfgVehicles { class Car { scope = 2; }; class Tank { scope = 2; }; };"; private _qv = "Car" createVehicle [0, 0, 0]; private _qt = "Tank" createVehicle [5, 5, 0]; '
+                 'private _qg = createGroup east; private _qh = createGroup west;'),
 ]
 
 
@@ -75,10 +83,10 @@ def generate(rng, tier, run):
     if not any(t == "fmt" for t, _ in probes) and rng.random() < 0.7:
         probes.append(PROBES[0])
     # probes before and after the generated part (so that interference at any time of P's run shows)
-    pre = ["t__ [\"PR\", %s, 0, %s];" % (sqf.sqf_str(t), e) for t, e in probes]
-    post = ["t__ [\"PR\", %s, 1, %s];" % (sqf.sqf_str(t), e) for t, e in probes]
+    pre = ["{ t__ [\"PR\", %s, 0, %s] } except__ { t__ [\"PR\", %s, 0, \"E\"] };" % (sqf.sqf_str(t), e, sqf.sqf_str(t)) for t, e in probes]
+    post = ["{ t__ [\"PR\", %s, 1, %s] } except__ { t__ [\"PR\", %s, 1, \"E\"] };" % (sqf.sqf_str(t), e, sqf.sqf_str(t)) for t, e in probes]
     mid = "\n".join(rng.sample(pre, min(3, len(pre))))
-    P = "\n".join(pre) + "\n" + ptext + "\n" + "\n".join(post)
+    P = (P_CONFIG + "\n" if any(t == "veh" for t, _ in probes) else "") + "\n".join(pre) + "\n" + ptext + "\n" + "\n".join(post)
     nq = rng.randint(1, 3)
     Qs = []
     for i in range(nq):
